@@ -181,6 +181,7 @@ func main() {
 			// split commit-graph: files oldest first
 			var idx cg.Index
 			var outs []lib.Out
+			var dumps []string
 			for k := range c.L("files") {
 				f := unrle(lib.Case{"f": c.L("files")[k]}, "f")
 				var base uint32
@@ -192,9 +193,10 @@ func main() {
 					return lib.Err(class(err)), nil
 				}
 				idx = nx
-				outs = append(outs, dump(idx, base, 64))
+				dumps = append(dumps, lib.Render(dump(idx, base, 64)))
+				outs = append(outs, compact(dump(idx, base, 64)))
 			}
-			return lib.List(outs...), nil
+			return lib.List(outs...), map[string]any{"dumps": dumps}
 		}
 		return lib.Err("badcase"), nil
 	})
